@@ -154,6 +154,7 @@ type Exec struct {
 	Trace       bool
 	LenOfSym    map[int]*Term
 	CurHarness  string
+	builtPkgs   map[*ssa.Package]bool
 	noIntrinsicOnce *ssa.Function
 	Deadline    time.Time
 	FreshDefs   map[string]*FreshDef
@@ -170,7 +171,7 @@ type Observation struct {
 func NewExec(prog *ssa.Program, solver *Solver) *Exec {
 	e := &Exec{Prog: prog, TS: NewStore(), Solver: solver, globals: map[*ssa.Global]int{}, initSt: map[*ssa.Package]int{},
 		Unwind: 8, MaxDepth: 400, BranchTimeoutMs: 2000, ConcretizeTimeoutMs: 20000, Merge: true, FuncsSeen: map[*ssa.Function]int{}, defKey: map[string][]*Term{},
-		nondet: map[string]Value{}, strIntern: map[string]int64{}, feasCache: map[string]Result{}, InitPkgs: map[string]bool{}, LenOfSym: map[int]*Term{}, FreshDefs: map[string]*FreshDef{}}
+		nondet: map[string]Value{}, strIntern: map[string]int64{}, feasCache: map[string]Result{}, InitPkgs: map[string]bool{}, LenOfSym: map[int]*Term{}, FreshDefs: map[string]*FreshDef{}, builtPkgs: map[*ssa.Package]bool{}}
 	return e
 }
 
@@ -636,10 +637,13 @@ func (e *Exec) callFn(st *State, fn *ssa.Function, args []Value, env []Value, de
 	if intr := e.lookupIntrinsic(st, fn); intr != nil && !skipIntr {
 		return e.runIntrinsic(intr, st, fn, args, depth)
 	}
-	if fn.Blocks == nil && fn.Pkg != nil {
+	if fn.Pkg != nil && !e.builtPkgs[fn.Pkg] {
+		// packages are built lazily and concurrently explored harnesses share the program: never look at a
+		// function body before its package's (idempotent) build has completed
 		lookupMu.Lock()
 		fn.Pkg.Build()
 		lookupMu.Unlock()
+		e.builtPkgs[fn.Pkg] = true
 	}
 	if fn.Blocks == nil {
 		return []Outcome{{Kind: OutError, St: st, Why: "no body for " + fn.String()}}
